@@ -354,6 +354,7 @@ func runC11(env *Env) {
 	}
 	// boundary events are listeners too: an event delivered the moment one of them announces that it listens
 	boundaryPromptDelivery(env, rep, "C11-exactly-once", 12)
+	boundaryStaleEvents(env, rep, "C11-exactly-once", 8)
 	env.WriteCases(rep, "", "Corr.C11corr", "list (nat * list nat * nat * nat)", items, "c11_mismatches")
 	env.WriteReport(rep)
 }
